@@ -148,4 +148,23 @@ theorem setBusy_keeps_score (d : W) (p q : Int) (hw : rawScore d > 16000 → raw
   rw [ply_shift_exact d (getScore d p) p q (by rw [e]; exact h1) (by rw [e]; exact h2), e]
   rfl
 
+/-- the repaired `setBusy` is an `insert` whose stored key (argument key ^ contempt hash) is exactly the key field of the
+    probed entry, with the busy mark set and the shown score stored back at the same ply -/
+theorem setBusy_reinserts_under_probed_key (t : Table) (k d : W) (ply : Int) :
+    ∃ a : InsArgs, t.setBusy k d ply = t.insert a ∧ a.key ^^^ t.contempt = k ∧ a.busy = true ∧ a.ply = ply ∧
+      a.score = getScore d ply := by
+  refine ⟨{ key := k ^^^ t.contempt, from_ := (getMove d).toNat % 64, to := (getMove d).toNat / 64 % 64,
+            promote := (getMove d).toNat / 4096, score := getScore d ply, type := (getType d : Int), ply := ply,
+            depth := (getDepth d : Int), eval := getEvalScore d, busy := true }, rfl, ?_, rfl, rfl, rfl⟩
+  show (k ^^^ t.contempt) ^^^ t.contempt = k
+  rw [BitVec.xor_assoc, BitVec.xor_self, BitVec.xor_zero]
+
+/-- witness for the pinned code, which handed `k` itself to `insert`: with a non-zero contempt hash the stored key
+    `k ^ contempt` is another key than the one the entry was found under -/
+theorem pinned_setBusy_other_key (k c : W) (hc : c ≠ 0) : k ^^^ c ≠ k := by
+  intro h
+  apply hc
+  have : k ^^^ (k ^^^ c) = k ^^^ k := by rw [h]
+  simpa [← BitVec.xor_assoc] using this
+
 end Props.C08
